@@ -1,5 +1,6 @@
 import CoapVerif.Model.MsgLayer
 import CoapVerif.Model.MsgLayerX
+import CoapVerif.Model.MsgLayerW
 import CoapVerif.Spec.SendQueue
 /- Line-protocol driver for the message-layer properties (C06, C08): interprets one scenario line with the model
 `Coap.Msg` and a scripted peer, printing the same canonical trace as harness/msg.c.
@@ -11,6 +12,9 @@ import CoapVerif.Spec.SendQueue
              a<D>     the peer's empty ACK arrives D ticks after the transmission   (CON only; a NON is not ACKed)
              r<D>     the peer's RST arrives D ticks after the transmission
              A<D>+<E> the ACK arrives twice, after D and after E ticks;   R<D>+<E> likewise for RST
+             x        the socket write of this datagram FAILS (coap_socket_send returns -1: ECONNREFUSED, ENOBUFS, …); nothing
+                      leaves; the attempt is printed as txf@T:S:C|N:MID:=.  A line with an `x` fate is interpreted with the
+                      write-failure model `Coap.MsgW.stepW` (Model/MsgLayerW.lean); not together with S: / i: / k: events
     ev     s:S:c|n:MID:R   application sends CON/NON (token = MID, PRNG byte R)
            t:DT            let DT ticks pass (arrivals in between are delivered at their time), then run the timers
            n               run the timers, then sleep for the returned wait (again and again) until the earliest queued deadline
@@ -32,7 +36,7 @@ import CoapVerif.Spec.SendQueue
 -- DRIVER-OPS: sq => Coap.Driver.Msg.sqStep
 -- DRIVER-OPS: tmo => Coap.Driver.Msg.tmoStep
 namespace Coap.Driver.Msg
-open Coap Coap.SQ Coap.Msg Coap.MsgX
+open Coap Coap.SQ Coap.Msg Coap.MsgX Coap.MsgW
 
 def T0 : Nat := 1000
 
@@ -40,6 +44,7 @@ inductive Fate where
   | drop
   | ack (d : List Nat)
   | rst (d : List Nat)
+  | fail
   deriving Repr
 
 structure Arrival where
@@ -62,6 +67,9 @@ structure Sim where
   pt : Nat := 0
   prng : Nat := 0
   ka : List KA := []
+  wmode : Bool := false     -- the line has `x` fates: interpreted with the write-failure model; (l, wf, failed) is its state
+  wf : List Bool := []
+  failed : List Nat := []
   deriving Repr
 
 def nats (s : String) (sep : Char) : Option (List Nat) := (s.split (· == sep)).toList.mapM (·.toString.toNat?)
@@ -74,6 +82,7 @@ def parseSess (w : String) : Option (List Sess) :=
 
 def parseFate (w : String) : Option Fate :=
   if w = "d" then some .drop
+  else if w = "x" then some .fail
   else match w.toList with
     | 'a' :: r => (String.ofList r).toNat?.map fun d => .ack [d]
     | 'r' :: r => (String.ofList r).toNat?.map fun d => .rst [d]
@@ -103,6 +112,7 @@ def react (sm : Sim) : Sim :=
         ds.foldl (fun sm d => { sm with pend := insArr ⟨t + d, sm.seq, s, isRst, mid⟩ sm.pend, seq := sm.seq + 1 }) sm
       match f with
       | .drop => sm
+      | .fail => sm          -- the write failed (the model consumed the same entry of its oracle): nothing reaches the peer
       | .ack ds => if con then add sm false ds else sm
       | .rst ds => add sm true ds
     | _ => sm) sm
@@ -111,7 +121,12 @@ def evX (sm : Sim) (e : EvX) : Sim :=
   let lx := stepX { l := sm.l, pingTimeout := sm.pt, prng := sm.prng, ka := sm.ka } e
   react { sm with l := lx.l, pt := lx.pingTimeout, prng := lx.prng, ka := lx.ka }
 
-def ev (sm : Sim) (e : Ev) : Sim := if sm.xmode then evX sm (.base e) else react { sm with l := step sm.l e }
+def evW (sm : Sim) (e : Ev) : Sim :=
+  let lw := stepW { l := sm.l, wf := sm.wf, failed := sm.failed } e
+  react { sm with l := lw.l, wf := lw.wf, failed := lw.failed }
+
+def ev (sm : Sim) (e : Ev) : Sim :=
+  if sm.xmode then evX sm (.base e) else if sm.wmode then evW sm e else react { sm with l := step sm.l e }
 
 def doPrepare (sm : Sim) : Sim :=
   let sm := ev sm .prepare
@@ -209,6 +224,11 @@ def showOut : Out → String
   | .sub (some m) => s!"sub={m}"
   | .sub none => "sub=rej"
 
+/-- a write attempt that failed -/
+def showFailed : Out → String
+  | .tx t s mid _ con => s!"txf@{t}:{s}:{if con then "C" else "N"}:{mid}:="
+  | o => showOut o
+
 def commas (l : List String) : String := if l.isEmpty then "-" else String.intercalate "," l
 
 /-- internal counters: con_active per session; delay-queue length per session; the send queue with ABSOLUTE deadlines -/
@@ -226,8 +246,11 @@ def msgStep (args : List String) : String :=
     match parseSess sw, parseFates fw with
     | some ss, some fs =>
       let xmode := evs.any fun w => w.startsWith "S:" || w.startsWith "i:" || w.startsWith "k:"
+      let isFail (f : Fate) : Bool := match f with | .fail => true | _ => false
+      let wmode := fs.any isFail
+      if xmode && wmode then "bad-op" else
       let sm0 : Sim := { l := init T0 ss, fates := fs, pend := [], seq := 0, seen := 0, lastWait := 0,
-                         xmode := xmode, ka := (initX T0 ss).ka }
+                         xmode := xmode, ka := (initX T0 ss).ka, wmode := wmode, wf := fs.map isFail }
       let rec loop (sm : Sim) (shown : Nat) (acc : List String) : List String → Option (List String)
         | [] => some acc
         | w :: ws =>
@@ -237,10 +260,11 @@ def msgStep (args : List String) : String :=
             let olds := sm'.l.out.reverse.take shown
             let nw0 := (olds.filter fun o => match o with | .wait .. => true | _ => false).length
             let es := sm'.es.reverse
-            let (news, _) := (sm'.l.out.reverse.drop shown).foldl (fun (acc : List String × Nat) o =>
+            let (news, _, _) := (sm'.l.out.reverse.drop shown).foldl (fun (acc : List String × Nat × Nat) o =>
               match o with
-              | .wait .. => (acc.1 ++ [showOut o ++ "/" ++ toString (es.getD acc.2 0)], acc.2 + 1)
-              | _ => (acc.1 ++ [showOut o], acc.2)) ([], nw0)
+              | .wait .. => (acc.1 ++ [showOut o ++ "/" ++ toString (es.getD acc.2.1 0)], acc.2.1 + 1, acc.2.2 + 1)
+              | _ => (acc.1 ++ [if sm'.failed.contains acc.2.2 then showFailed o else showOut o], acc.2.1, acc.2.2 + 1))
+              ([], nw0, shown)
             loop sm' sm'.l.out.length (acc ++ news ++ [dump sm'.l]) ws
       match loop sm0 0 [] evs with
       | some toks => "M " ++ String.intercalate " " toks
